@@ -197,6 +197,19 @@ def tryFrom (input : List Nat) : Outcome Decoded :=
     | .panic x => .panic x
     | .ok v => if frameBits b0 / 8 != input.length then .err .parse else .ok (toDecoded v)
 
+/-- `Message::from_bytes((input, 0))` (deku's `DekuContainerRead`, what jet1090's de-duplicator and
+    decode1090 call): the same decoding WITHOUT the final "Too much data" test, so trailing bytes after
+    the 7 / 14 bytes of the frame are ignored. -/
+def fromBytes (input : List Nat) : Outcome Decoded :=
+  match input with
+  | [] => .err .incomplete
+  | b0 :: _ =>
+    if input.length < frameBits b0 / 8 then .err .incomplete else
+    match decodeBuf b0 (input.take (frameBits b0 / 8)) with
+    | .err e => .err e
+    | .panic x => .panic x
+    | .ok v => .ok (toDecoded v)
+
 def Decoded.render : Decoded → String
   | .json j => "ok " ++ j.render
   | .serErr .flattenNonMap => "sererr flatten"
